@@ -303,6 +303,10 @@ def rule_D2(ctx):
 
 
 # --------------------------------------------------------------------------- D3
+def names_in_expr(e):
+    return {n.id for n in ast.walk(e) if isinstance(n, ast.Name)}
+
+
 def rule_D3(ctx):
     prog = ctx.prog
     ctx.rule("D3", "from_dict rebuilds one payload per clone from the entry's prior and data at the clone's graph index, removes index holes, copies maps and per-clone lists (as to_dict does), and refreshes the recursion last", 12)
@@ -388,6 +392,22 @@ def rule_D3(ctx):
     ctx.check(ok, "D3", "payload is stored at graph index node_idx[<clone>]", r.where(puts[0]) if puts else r.where(loop),
               "the payload is stored by `%s`; it must go to graph[tree_dict['node_idx'][<this clone>]], the index the edge list refers to" % ("; ".join(u(s) for s in puts) or "nothing"),
               construct=r.qualname, stmt="payload index")
+
+    # ---- the reserved entries (outlier set, virtual root) own no payload: the loop skips them before it indexes node_idx
+    skip_ok = False
+    first = loop.body[0] if loop.body else None
+    if isinstance(first, ast.If) and len(first.body) == 1 and isinstance(first.body[0], ast.Continue) and not first.orelse:
+        t = u(first.test)
+        names_ok = ("outlier" in t.lower()) and ("root" in t.lower()) and (" or " in t) and ("!=" not in t) and (kvar in names_in_expr(first.test))
+        skip_ok = names_ok
+    else:
+        # equivalent: the whole body guarded by `if node != outlier and node != root:` / `not in (outlier, root)`
+        if len(loop.body) == 1 and isinstance(loop.body[0], ast.If) and not loop.body[0].orelse:
+            t = u(loop.body[0].test)
+            skip_ok = ("outlier" in t.lower()) and ("root" in t.lower()) and (kvar in names_in_expr(loop.body[0].test)) and (("!=" in t and " and " in t) or "not in" in t)
+    ctx.check(skip_ok, "D3", "the payload loop skips the outlier and root entries", r.where(first) if first is not None else r.where(loop),
+              "the loop over node_data does not skip exactly the outlier set and the virtual root: restoring any tree that holds an outlier then looks up node_idx[<outlier name>] (KeyError), or a clone is skipped",
+              construct=r.qualname, stmt="skip reserved entries")
 
     # ---- index holes
     rm = [c for c in calls(fn) if isinstance(c.func, ast.Attribute) and c.func.attr in ("remove_nodes_from", "remove_node") and isinstance(c.func.value, ast.Name) and c.func.value.id == G]
@@ -1202,4 +1222,5 @@ SELFTEST = [
          "new": "            tree.relabel_nodes()\n\n            if concentration_update:\n                update_concentration_value(conc_sampler, tree, tree_dist)\n\n            record = i % thin == 0\n            if record:\n                append_to_trace(i, timer, trace, tree, tree_dist)\n"}]},
     {"name": "benign-setup_trace-locals-renamed", "kind": "benign", "file": _RUN, "old": "    trace = []\n    append_to_trace(0, timer, trace, tree, tree_dist)\n    return trace\n",
      "new": "    entries = list()\n    start = 0\n    append_to_trace(start, timer, entries, tree, tree_dist)\n    return entries\n"},
+    {"name": "D3-reserved-entries-not-skipped", "kind": "break", "rule": "D3", "file": "phyclone/tree/tree.py", "old": "                if node == outlier_node_name or node == root_name:\n                    continue\n", "new": ""},
 ]
